@@ -141,6 +141,9 @@ func (s *simSys) clone(dir string) *simSys {
 	for k, v := range s.w.lock {
 		n.w.lock[k] = v
 	}
+	for k, v := range s.w.hist {
+		n.w.hist[k] = append([][]byte(nil), v...)
+	}
 	n.w.opN, n.w.clock, n.w.procs = s.w.opN, s.w.clock, s.w.procs
 	n.w.lockLog = append([]simCkptEvent(nil), s.w.lockLog...)
 	n.w.pubLog = append([]simCkptEvent(nil), s.w.pubLog...)
@@ -226,10 +229,13 @@ func (s *simSys) onApplied(op *simOp, data, old []byte) {
 					pubSize = c.Size
 				}
 			}
-			if pubSize < n {
+			if pubSize < n && !w.tampered {
 				w.violate("staging bundle %s discarded (op %d) while the published checkpoint has size %d", op.Key, op.N, pubSize)
 			}
 		}
+	case op.Kind == "upload" && op.Key == "checkpoint" && w.tampered:
+		// with tampered storage (e.g. a re-packed staging bundle carrying a "checkpoint" member) what gets
+		// uploaded is not evidence of what the server signed; C08 is judged on the lock history only
 	case op.Kind == "upload" && op.Key == "checkpoint":
 		c, err := simOpenCheckpoint(simLogName, &s.key.PublicKey, data)
 		if err != nil {
